@@ -772,6 +772,89 @@ def zc_episode(g, kind, steps):
     ep.dropall()
 
 
+def zc_fixed_episodes(g, kinds):
+    """deterministic zero-copy episodes:
+    (a) a view with several RUN chunks as the ARGUMENT of every in-place operation whose receiver holds small ARRAY (and other)
+        chunks under the same keys, then edits of the receiver in those chunks;
+    (b) one view OBJECT loaded again and again (no Clear in between) from different buffers with the same container kinds per slot,
+        while bitmaps derived from the earlier loads (static or / xor / andnot / flip with disjoint partners, clones) stay alive"""
+    runs = ["R:100+50,1000+200,9000+3", "R:0+10,500+1000,40000+9", "R:7+3,20000+100,65000+535"]
+    arrs = ["A:120,1100,30000", "A:5,40003", "A:9,10,11,20050,65535"]
+    for kind in kinds:
+        zmk = "zfrozen" if kind == "frozen" else "zbuf"
+        for iop in ("ixor", "ior", "iand", "iandnot"):
+            ep = A(g)
+            ep.frozen = kind == "frozen"
+            x, m, v = g.fresh("s"), g.fresh("m"), g.fresh("v")
+            ks = [1, 2, 3]
+            g.emit("mkrepr %s cow=0;%s" % (x, ";".join("%d:%s" % (k, c) for k, c in zip(ks, runs))))
+            ep.define(x, ks)
+            g.emit("%s %s %s" % (zmk, m, x))
+            g.emit("zrd %s %s %s" % (v, kind, m))
+            ep.define(v, ks, [m]); ep.views.add(v)
+            for cow in (0, 1):
+                o = g.fresh("o")
+                g.emit("mkrepr %s cow=%d;%s" % (o, cow, ";".join("%d:%s" % (k, c) for k, c in zip(ks, arrs))))
+                ep.define(o, ks)
+                g.emit("%s %s %s" % (iop, o, v))
+                ep.taint[o] = {m}
+                g.emit("zsame %s" % m)
+                ep.check()
+                for k in ks:
+                    g.emit("rem %s %d" % (o, k * CH + 1001)); g.emit("add %s %d" % (o, k * CH + 1001)); g.emit("add %s %d" % (o, k * CH + 60000))
+                    g.emit("zsame %s" % m)
+                ep.check()
+            g.count("zc:fixed-run-argument:" + iop)
+            for n_ in list(ep.live):
+                if n_ != x:
+                    g.emit("zdetach %s" % n_)
+            g.emit("zkill %s" % m)
+            ep.check()
+            ep.dropall()
+        if kind == "frozen":
+            continue
+        # (b)
+        ep = A(g)
+        ks = [4, 5, 6]
+        recs = []
+        for j in range(3):
+            x, m = g.fresh("s"), g.fresh("m")
+            conts = ["A:%d,%d,%d" % (10 + j, 200 + j, 5000 * (j + 1)), "R:%d+%d,30000+%d" % (100 * (j + 1), 50 + j, 10 + j),
+                     "B:32768:%s*1024" % ("5555555555555555" if j % 2 == 0 else "aaaaaaaaaaaaaaaa")]
+            g.emit("mkrepr %s cow=0;%s" % (x, ";".join("%d:%s" % (k, c) for k, c in zip(ks, conts))))
+            ep.define(x, ks)
+            g.emit("zbuf %s %s" % (m, x))
+            recs.append(m)
+        e = g.fresh("o")
+        g.emit("mkrepr %s cow=0;9:A:1,2,3" % e)
+        ep.define(e, [9])
+        v = g.fresh("v")
+        for j, m in enumerate(recs):
+            g.emit("zrd %s %s %s" % (v, kind, m))
+            ep.define(v, ks, [m]); ep.views.add(v)
+            ep.check()
+            for op in ("or", "xor", "andnot"):
+                d = g.fresh("d")
+                g.emit("%s %s %s %s" % (op, d, v, e))
+                ep.define(d, ks + [9], [m])
+            d = g.fresh("d")
+            g.emit("sflip %s %s %d %d" % (d, v, 0, 3 * CH))
+            ep.define(d, [0, 1, 2] + ks, [m])
+            d = g.fresh("d")
+            g.emit("clone %s %s" % (d, v))
+            ep.define(d, ks, [m])
+            ep.check()
+            g.count("zc:fixed-reloaded-view")
+        ep.check()
+        for n_ in list(ep.live):
+            if ep.taint[n_]:
+                g.emit("zdetach %s" % n_)
+        for m in recs:
+            g.emit("zkill %s" % m)
+        ep.check()
+        ep.dropall()
+
+
 def zc_run(g, kinds, nep, steps):
     for kind in kinds:
         for _ in range(nep):
@@ -836,6 +919,7 @@ def zc_shift_episodes(g, nep):
 def _zerocopy(g, scale):
     n = max(1, int(5 * scale))
     # frozen views last: mutating one trips known defects and may take the process down
+    zc_fixed_episodes(g, ["frombuffer", "fromunsafe", "frozen"])
     zc_run(g, ["frombuffer", "fromunsafe", "dense0", "dense1"], n, 16)
     zc_run(g, ["frozen"], n, 16)
     zc_shift_episodes(g, max(2, int(10 * scale)))
